@@ -1,6 +1,7 @@
 package props
 
 import (
+	"sync"
 	"bytes"
 	"encoding/hex"
 	"encoding/json"
@@ -472,6 +473,7 @@ func checkC17(run *mon.Run, rng *mon.Rand, thorough bool) {
 
 	// ---- handler level: the same claim under each layout must get the same verdict ----
 	c17Handler(run, rng, thorough)
+	c17Concurrent(run, rng, thorough)
 	run.Sample(map[string]interface{}{"kind": "node-hash case", "a": "32 random bytes", "b": "a with last byte +1", "layouts": []string{"exact-cap", "spare-cap", "contiguous"}})
 	run.Sample(map[string]interface{}{"kind": "root-from-proofs case", "proof_len": 7, "layouts": layoutNames})
 }
@@ -483,6 +485,82 @@ func isASCII(s string) bool {
 		}
 	}
 	return true
+}
+
+// c17Concurrent: the format functions called from many goroutines at once (block execution, CheckTx, simulation and
+// gRPC queries run concurrently in a node), each goroutine on its own inputs; every result is compared with the
+// reference. A result that depends on what another caller is doing is not a function of the bytes supplied. The
+// thorough tier runs this under the race detector.
+func c17Concurrent(run *mon.Run, rng *mon.Rand, thorough bool) {
+	run.Declare("purity.concurrent_callers_independent", 8)
+	G := 16
+	iters := pick(thorough, 4000, 20000)
+	type bad struct {
+		g, i int
+		what string
+	}
+	var mu sync.Mutex
+	var bads []bad
+	seeds := make([]uint64, G)
+	for g := range seeds {
+		seeds[g] = rng.U64()
+	}
+	var wg sync.WaitGroup
+	for g := 0; g < G; g++ {
+		wg.Add(1)
+		go func(g int) {
+			defer wg.Done()
+			r := mon.NewRand(seeds[g])
+			report := func(i int, what string) {
+				mu.Lock()
+				if len(bads) < 5 {
+					bads = append(bads, bad{g, i, what})
+				}
+				mu.Unlock()
+			}
+			defer func() {
+				if p := recover(); p != nil {
+					report(-1, fmt.Sprintf("panic: %v", p))
+				}
+			}()
+			for i := 0; i < iters; i++ {
+				b, sq, amt := randU64(r), randU64(r), randU64(r)
+				from, to, denom := randStr(r), randStr(r), randStr(r)
+				if got, want := ophosttypes.GenerateWithdrawalHash(b, sq, from, to, denom, amt), ref.Leaf(b, sq, from, to, denom, amt); got != want {
+					report(i, "GenerateWithdrawalHash")
+				}
+				x, y := rand32(r), rand32(r)
+				if got, want := ophosttypes.GenerateNodeHash(x, y), ref.Node(x, y); got != want {
+					report(i, "GenerateNodeHash")
+				}
+				leaf := ref.Leaf(b, sq, from, to, denom, amt)
+				proof := [][]byte{rand32(r), rand32(r), rand32(r)}
+				if got, want := ophosttypes.GenerateRootHashFromProofs(leaf, proof), ref.Root(leaf, proof); got != want {
+					report(i, "GenerateRootHashFromProofs")
+				}
+				if got, want := ophosttypes.GenerateOutputRoot(byte(b), x, y), ref.OutputRoot(byte(b), x, y); got != want {
+					report(i, "GenerateOutputRoot")
+				}
+				if got, want := ophosttypes.L2Denom(b, denom), ref.L2Denom(b, denom); got != want {
+					report(i, "L2Denom")
+				}
+				if i%64 == 0 {
+					if got, want := ophosttypes.BridgeAddress(b), ref.BridgeAddress(b); !bytes.Equal(got, want) {
+						report(i, "BridgeAddress")
+					}
+				}
+			}
+		}(g)
+	}
+	wg.Wait()
+	run.Evaluations += G * iters
+	for g := 0; g < G; g++ {
+		run.Hit("purity.concurrent_callers_independent")
+	}
+	for _, b := range bads {
+		run.Check("purity.concurrent_callers_independent", false, "c17.concurrent."+b.what, map[string]interface{}{"goroutine": b.g, "iteration": b.i, "goroutines": G}, "%s returned a value that does not follow from its arguments while %d goroutines were calling the format functions concurrently", b.what, G)
+	}
+	run.Distinct(fmt.Sprintf("concurrent/%dx%d", G, iters))
 }
 
 // c17Handler delivers MsgFinalizeTokenWithdrawal with the proof list laid out in
